@@ -98,11 +98,13 @@ amount_style = st.fixed_dictionaries({'thousands': st.booleans(), 'symbol': st.s
                                       'plus': st.booleans(), 'pad': st.sampled_from(['', '', ' ', '  ']), 'decimals': st.sampled_from([2, 2, 1, 0])})
 
 
-def render_amount(cents, style, decimal):
-    """-> (cell text, exact float value) for a non-zero integer number of cents."""
+def render_amount(cents, style, decimal, sub=None):
+    """-> (cell text, exact float value) for a non-zero integer number of cents (plus an optional third decimal digit `sub`: sub-cent amounts)."""
     a = abs(cents)
     whole, frac = divmod(a, 100)
-    if style['decimals'] == 0 and frac == 0:
+    if sub:
+        digits, canon = f'{whole}.{frac:02d}{sub}', f'{whole}.{frac:02d}{sub}'
+    elif style['decimals'] == 0 and frac == 0:
         digits, canon = str(whole), str(whole)
     elif style['decimals'] == 1 and frac % 10 == 0:
         digits, canon = f'{whole}.{frac // 10}', f'{whole}.{frac // 10}'
@@ -135,7 +137,10 @@ def row(draw, lay):
     kind = draw(st.sampled_from(['good', 'good', 'good', 'good', 'short', 'bad_date', 'bad_amount', 'empty_desc', 'blank', 'long']))
     d = draw(st.dates(min_value=date(2020, 1, 1), max_value=date(2026, 12, 31)))
     cents = draw(st.one_of(st.integers(-2_000_000, 2_000_000), st.sampled_from([1, -1, 99, 100, -100, 123456, 100000000, -99999999]))) or 7
-    r = {'kind': kind, 'date': d.isoformat(), 'unpadded': draw(st.booleans()), 'cents': cents, 'style': draw(amount_style),
+    sub = draw(st.sampled_from([None] * 8 + [1, 4, 5, 9]))
+    if sub and draw(st.booleans()):
+        cents = draw(st.sampled_from([0, 0, 1, -1, 99]))  # amounts below one cent are amounts too: 0.004, 0.019, -0.011
+    r = {'kind': kind, 'date': d.isoformat(), 'unpadded': draw(st.booleans()), 'cents': cents, 'sub': sub, 'style': draw(amount_style),
          'desc': draw(st.sampled_from(DESC_TEXT)), 'customs': {c: draw(st.sampled_from(DESC_TEXT + ['', ' ', 'WIRE', 'ACH-OUT'])) for c in lay['cols'] if c in CUSTOM_NAMES},
          'loc': draw(st.sampled_from(['', 'WA', 'Seattle, WA', ' NY '])), 'skip': draw(st.sampled_from(['', 'x', '1,5', 'ignored "q"']))}
     if kind == 'short':
@@ -190,7 +195,7 @@ def build(case):
         if r['kind'] == 'blank':
             lines_cells.append(None)
             continue
-        amt_text, value = render_amount(r['cents'], r['style'], lay['decimal'])
+        amt_text, value = render_amount(r['cents'], r['style'], lay['decimal'], r.get('sub'))
         cells = []
         desc_cell = clean_for_dialect(r['desc'], dialect)
         customs = {k: ('' if r['kind'] == 'empty_desc' else clean_for_dialect(v, dialect)) for k, v in r['customs'].items()}
